@@ -7,6 +7,12 @@ TB = ("Trusted: Coq 8.16.1 kernel (vm_compute, no native_compute; no axioms: eve
       "sync.Pool/bufio; the translator tools/gotrans; extraction (ExtrOcamlBasic only) + ocaml/zmodel.ml; the Go harness and its "
       "blob-decoding co-process; for vectors the pure-Go stand-in engine fakefaiss. ")
 CLAIMED = {
+ "C17": ("Coq: C17_ok_is_complete / C17_fail_is_error (buffered writer with sticky error, arbitrary write sequences, any limit) + footer/CRC theorems; correspondence = fault enumeration: WriteTo failing at EVERY byte offset, Persist and Merge under RLIMIT_FSIZE at flush/footer boundaries and strides (thorough: every offset) vs the extracted writer model; file absence after errors; successful outputs decoded by the extracted parser",
+         "The theorems hold for every capacity, write sequence and failure offset. The correspondence injects a write failure at every offset of WriteTo's output and at dense offsets of Persist/Merge (merge buffer shrunk to 16-100 bytes), compares error/no-error and bytes accepted with the extracted model fed with the recorded write sizes, requires the path to be absent after every error and the file to decode to the expected content after every success.",
+         "fsync/close failures cannot be injected; cleanup-on-every-error-path is established by enumeration, not by a structural proof (skeleton stage, DESIGN.md 4.3).", "6 C17"),
+ "C18": ("Coq: C18_cancel_outcomes (every event sequence, every close moment: closed error and no file, or success and complete file) ; correspondence: close channel closed at EVERY write boundary of each merge via the StatsReporter callback, plus pre-closed; outcomes and files checked, successful files decoded by the extracted parser against extracted spec_merge",
+         "The theorem quantifies over all placements of polls and of the close. The correspondence closes the channel at every write boundary of merges with several segments, deletions, doc values and thesauri (quick: all boundaries of 5 merges; thorough 150) and checks the only two allowed outcomes, including that an ErrClosed return leaves no file and no maps.",
+         "poll points are not observable without editing the merge (no hook); vectors' freeReconstructedIndexes under C19.", "6 C18"),
  "C10": ("Coq: C10_history_independent (pooled working memory with whole backing arrays; induction over build histories with the 'clear within capacity' invariant); correspondence: build histories with GC off vs extracted spec, extracted pooled-memory model and extracted parser; concurrent builds under the race detector",
          "The theorem covers every history (incl. failed builds) and every choice of pooled object; the correspondence replays histories (large-then-small, many-fields-then-few, synonyms-then-plain, empty, validator-rejected) in one process with the GC off so the pool really reuses, comparing every build with the spec of its batch alone, with the extracted reuse model on the abstracted history, and its bytes/CRC through the extracted parser; then 2-8 goroutines build concurrently under -race.",
          "the model covers the members that are read before written (IncludeDocValues, pooled postings bitmaps); the other reusable members are overwritten before use (DESIGN.md 6 C10) and are covered by the correspondence only; data races observed, not proved.", "6 C10"),
